@@ -7,6 +7,7 @@ mkdir -p .work evidence replays
 # regenerate the source-derived Lean files, then build all proofs and the driver
 (cd harness && cp "${VERIF_REPO:-/repo}/go.sum" go.sum && go build -o ../.work/tr ./tr)
 ./.work/tr random "${VERIF_REPO:-/repo}" lean/Chihaya/Gen/Random.lean
+./.work/tr validate "${VERIF_REPO:-/repo}" lean/Chihaya/Gen/Validate.lean
 (cd lean && lake build Chihaya modeldrv)
 (cd harness && cp "${VERIF_REPO:-/repo}/go.sum" go.sum && go build -tags verif -o ../.work/hx-warm ./hx && rm -f ../.work/hx-warm)
 echo setup ok
